@@ -1,62 +1,2 @@
-(* GENERATED by tools/translate_parse.py from src/format/parse.rs, src/format/mod.rs -- do not edit *)
-From Coq Require Import ZArith List Bool.
-From V Require Import Model.Items.
-Import ListNotations.
-Open Scope Z_scope.
-
-(* Item::Numeric: numeric index -> (width, signed, setter) *)
-Definition PN_TABLE : list (Z * (Z * bool * Z)) := [
-  (0, (4, true, 0)) (* Year *);
-  (1, (2, false, 1)) (* YearDiv100 *);
-  (2, (2, false, 2)) (* YearMod100 *);
-  (3, (4, true, 3)) (* IsoYear *);
-  (4, (2, false, 4)) (* IsoYearDiv100 *);
-  (5, (2, false, 5)) (* IsoYearMod100 *);
-  (6, (1, false, 6)) (* Quarter *);
-  (7, (2, false, 7)) (* Month *);
-  (8, (2, false, 13)) (* Day *);
-  (9, (2, false, 8)) (* WeekFromSun *);
-  (10, (2, false, 9)) (* WeekFromMon *);
-  (11, (2, false, 10)) (* IsoWeek *);
-  (12, (1, false, 100)) (* NumDaysFromSun *);
-  (13, (1, false, 101)) (* WeekdayFromMon *);
-  (14, (3, false, 12)) (* Ordinal *);
-  (15, (2, false, 16)) (* Hour *);
-  (16, (2, false, 15)) (* Hour12 *);
-  (17, (2, false, 17)) (* Minute *);
-  (18, (2, false, 18)) (* Second *);
-  (19, (9, false, 19)) (* Nanosecond *);
-  (20, (18446744073709551615, true, 20)) (* Timestamp *)
-].
-Definition PN_MIN_DIGITS : Z := 1.
-Definition PN_SIGNED_MAX_DIGITS : Z := 18446744073709551615.
-(* set_weekday_with_num_days_from_sunday: number -> Weekday discriminant (Mon = 0); anything else OUT_OF_RANGE *)
-Definition PN_WD_FROM_SUN : list (Z * Z) := [(0, 6); (1, 0); (2, 1); (3, 2); (4, 3); (5, 4); (6, 5)].
-(* set_weekday_with_number_from_monday: number -> Weekday discriminant (Mon = 0); anything else OUT_OF_RANGE *)
-Definition PN_WD_FROM_MON : list (Z * Z) := [(1, 0); (2, 1); (3, 2); (4, 3); (5, 4); (6, 5); (7, 6)].
-(* LowerAmPm | UpperAmPm *)
-Definition P_AMPM_LEN : Z := 2.
-Definition P_AMPM_BIT : Z := 32.
-Definition P_AMPM_REST : Z := 2.
-Definition P_AMPM_ARMS : list (list Z * Z) := [([97; 109], 0); ([112; 109], 1)].
-(* Nanosecond<n>NoDot: internal index -> (minimum length, digits) *)
-Definition P_NODOT : list (Z * (Z * Z)) := [(101, (3, 3)); (102, (6, 6)); (103, (9, 9))].
-(* Fixed time-zone offset items: fixed index -> (allow_zulu, allow_missing_minutes, allow_tz_minus_sign);
-   all read `s.trim_start()` with scan::colon_or_space *)
-Definition P_TZ_FLAGS : list (Z * (bool * bool * bool)) := [(11, (false, false, true)); (12, (false, false, true)); (13, (false, false, true)); (14, (true, false, true)); (15, (false, false, true)); (16, (true, false, true)); (100, (true, true, true))].
-(* parse_rfc3339_relaxed *)
-Definition P_RELAXED_DATE_ITEMS : list Item := [(INumeric N_Year PadZero); (Space []); (Literal [45]); (INumeric N_Month PadZero); (Space []); (Literal [45]); (INumeric N_Day PadZero)].
-Definition P_RELAXED_TIME_ITEMS : list Item := [(INumeric N_Hour PadZero); (Space []); (Literal [58]); (INumeric N_Minute PadZero); (Space []); (Literal [58]); (INumeric N_Second PadZero); (IFixed F_Nanosecond); (Space [])].
-Definition P_RELAXED_SEPARATORS : list Z := [116; 84; 32].
-Definition P_RELAXED_UTC : list Z := [85; 84; 67].
-Definition P_RELAXED_TZ_FLAGS : bool * bool * bool := (true, false, true).
-(* parse_rfc2822: (min, max) digits of day, hour, minute, second; year *)
-Definition P2822_DAY : Z * Z := (1, 2).
-Definition P2822_HOUR : Z * Z := (2, 2).
-Definition P2822_MINUTE : Z * Z := (2, 2).
-Definition P2822_SECOND : Z * Z := (2, 2).
-(* the seconds are scanned from `s_.trim_start()` (true) or from `s_` (false) *)
-Definition P2822_SECOND_TRIM : bool := true.
-Definition P2822_YEAR : Z * Z := (2, 18446744073709551615).
-(* (yearlen, (lo, hi, addend)) in match order; no match: year unchanged *)
-Definition P2822_YEAR_RULES : list (Z * (Z * Z * Z)) := [(2, (0, 49, 2000)); (2, (50, 99, 1900)); (3, (0, 9223372036854775807, 1900))].
+(* translator failed: parse_internal: AM/PM arm not recognised *)
+Definition translator_failed : False := I.
